@@ -116,7 +116,17 @@ def install_imul_monitor(S, key_prefix="hook/segment-imul"):
             exp = [m_apply(m, p) for p in pts]
             S_ = max([1e-3] + [abs(v) for p in exp + pts for v in p] + [abs(m[4]), abs(m[5])])
             size = max([math.hypot(p[0] - exp[0][0], p[1] - exp[0][1]) for p in exp] + [0.0])
-            bound = 1e-11 * max(k, 1.0) * S_ + (1e-9 * size if cname == "Arc" else 0.0)
+            arc_term = 0.0
+            if cname == "Arc":
+                # the parameter of a point on a flat ellipse is ill-conditioned (as in C06 / C08): radii, not the sampled chord, set the scale
+                try:
+                    r1, r2 = float(seg.rx), float(seg.ry)
+                    ecc = max(r1, r2) / max(min(r1, r2), 1e-300)
+                    size = max(size, r1, r2)
+                except Exception:
+                    ecc = 1.0
+                arc_term = 1e-9 * size * max(1.0, k / 10.0) * max(1.0, ecc / 100.0)
+            bound = 1e-11 * max(k, 1.0) * S_ + arc_term
             dev = max(math.hypot(a[0] - b[0], a[1] - b[1]) for a, b in zip(new, exp))
             ctx = active()
             ctx.see("hook-imul-" + cname, dev / bound)
